@@ -376,6 +376,11 @@ const ASCII_KEYS: &[&str] = &[
     "x-a", "x-b", "x-trace-id", "authorization", "a", "x-bin-x", "xbin", "bin", "x-binary", "x!#$%&'*+.^_`|~z",
     "te", "user-agent", "content-type", "grpc-message", "grpc-message-type", "grpc-status",
     "grpc-timeout", "grpc-encoding", "grpc-accept-encoding", "grpc-previous-rpc-attempts", "content-length", "tE",
+    // standard HTTP names: none of them is reserved by gRPC, all must cross like any custom entry
+    "connection", "transfer-encoding", "upgrade", "keep-alive", "host", "accept", "accept-encoding", "accept-language",
+    "cookie", "set-cookie", "x-forwarded-for", "via", "trailer", "date", "expect", "range", "referer", "origin",
+    "proxy-authorization", "cache-control", "content-encoding", "content-language", "location", "server", "warning",
+    "Connection", "Keep-Alive", "Transfer-Encoding",
     "X-A", "X-Trace-Id", "Content-Type", "GRPC-STATUS", "User-Agent",
 ];
 const BIN_KEYS: &[&str] = &[
@@ -724,11 +729,16 @@ fn run_server(
     reply: Result<(MetadataMap, Vec<Result<Vec<u8>, Status>>), Status>,
     streaming: bool,
     compress: bool,
+    req_trailers: Option<HeaderMap>,
 ) -> Result<ServerOut, String> {
     let h = Handler { reply: Arc::new(Mutex::new(Some(reply))), seen: Arc::new(Mutex::new(None)) };
     let seen = h.seen.clone();
     catch(std::panic::AssertUnwindSafe(move || {
-        let (body, _) = ScriptBody::<Status>::new(vec![Ev::Data(frame(b"req"))]);
+        let mut evs = vec![Ev::Data(frame(b"req"))];
+        if let Some(t) = req_trailers {
+            evs.push(Ev::Trailers(t));
+        }
+        let (body, _) = ScriptBody::<Status>::new(evs);
         let mut req = http::Request::new(body);
         *req.method_mut() = http::Method::POST;
         *req.uri_mut() = "/pkg.Svc/Method".parse().unwrap();
@@ -845,7 +855,7 @@ fn case_server(out: &mut Out, r: &mut Rng, ops: &[Op], reply: Reply, streaming: 
         Reply::StreamErr => Ok((MetadataMap::new(), vec![Ok(b"one".to_vec()), Err(status.clone())])),
         Reply::Err => Err(status.clone()),
     };
-    let res = run_server(req_headers.clone(), rep, streaming, compress);
+    let res = run_server(req_headers.clone(), rep, streaming, compress, None);
     let enc = if compress { Some("gzip") } else { None };
     let kind;
     let (model, obs, oracle);
@@ -1089,6 +1099,238 @@ fn case_client_error(out: &mut Out, r: &mut Rng, ops: &[Op], st: (u32, String, V
         impl_obs: obs,
         oracle,
         nontrivial: !sent.is_empty(),
+    });
+}
+
+// ------------------------------------------------------------------ (d) MetadataMap::merge: trailers folded into metadata
+const TRAIL_KEYS: &[&str] = &["x-trail", "x-a", "x-b", "x-trace-id", "authorization", "date", "via", "x-only-trailer", "set-cookie"];
+const TRAIL_BIN_KEYS: &[&str] = &["x-payload-bin", "x-other-bin", "-bin", "grpc-trace-bin", "x-trail-bin"];
+/// custom entries as a peer writes them (repeated keys, binary values padded or not)
+fn gen_peer_entries(r: &mut Rng, h: &mut HeaderMap, raw: &mut RawBin, max: u64) {
+    for _ in 0..r.range(0, max) {
+        let reps = if r.chance(1, 3) { r.range(2, 3) } else { 1 };
+        if r.chance(1, 3) {
+            let k = *r.pick(TRAIL_BIN_KEYS);
+            for _ in 0..reps {
+                let b = gen_bin_value(r);
+                let pad = r.chance(1, 2);
+                h.append(HeaderName::from_bytes(k.as_bytes()).unwrap(), HeaderValue::from_bytes(&b64(&b, pad)).unwrap());
+                raw.entry(k.to_string()).or_default().push(b);
+            }
+        } else {
+            let k = *r.pick(TRAIL_KEYS);
+            for _ in 0..reps {
+                if let Ok(v) = HeaderValue::from_bytes(&gen_ascii_value(r)) {
+                    h.append(HeaderName::from_bytes(k.as_bytes()).unwrap(), v);
+                }
+            }
+        }
+    }
+}
+#[derive(Clone)]
+struct Scripted {
+    headers: HeaderMap,
+    evs: Vec<Ev<Status>>,
+}
+impl tower_service::Service<http::Request<tonic::body::Body>> for Scripted {
+    type Response = http::Response<ScriptBody<Status>>;
+    type Error = std::convert::Infallible;
+    type Future = std::future::Ready<Result<Self::Response, Self::Error>>;
+    fn poll_ready(&mut self, _: &mut Context<'_>) -> Poll<Result<(), Self::Error>> {
+        Poll::Ready(Ok(()))
+    }
+    fn call(&mut self, _req: http::Request<tonic::body::Body>) -> Self::Future {
+        let mut res = http::Response::new(ScriptBody::new(self.evs.clone()).0);
+        *res.headers_mut() = self.headers.clone();
+        std::future::ready(Ok(res))
+    }
+}
+/// merged = what the receiver shows; `over` = the map whose names win (the `other` of merge),
+/// `under` = the map it is merged into; `strip` = names from_header_map removed from `under`
+fn oracle_merged(merged: &HeaderMap, under: &HeaderMap, over: &HeaderMap, strip: &[&str], raw_over: &RawBin, raw_under: &RawBin) -> Option<String> {
+    let md = MetadataMap::from_headers(merged.clone());
+    for (name, src, raw, skip_if_over) in [("merged-in", over, raw_over, false), ("original", under, raw_under, true)] {
+        for k in src.keys() {
+            let ks = k.as_str();
+            if skip_if_over && (over.contains_key(k) || strip.contains(&ks)) {
+                continue;
+            }
+            let a: Vec<&[u8]> = src.get_all(k).iter().map(|v| v.as_bytes()).collect();
+            let c: Vec<&[u8]> = merged.get_all(k).iter().map(|v| v.as_bytes()).collect();
+            if a != c {
+                return Some(format!("{} metadata {} sent with {} values arrives with {}", name, ks, a.len(), c.len()));
+            }
+            if ks.ends_with("-bin") {
+                if let Some(want) = raw.get(ks) {
+                    let got: Vec<Option<Vec<u8>>> = md.get_all_bin(ks).iter().map(|v| v.to_bytes().ok().map(|b| b.to_vec())).collect();
+                    let want: Vec<Option<Vec<u8>>> = want.iter().cloned().map(Some).collect();
+                    if got != want {
+                        return Some(format!("binary {} metadata {} does not decode to the original bytes", name, ks));
+                    }
+                }
+            }
+        }
+    }
+    for k in merged.keys() {
+        if !over.contains_key(k) && !under.contains_key(k) {
+            return Some(format!("metadata {} appeared", k));
+        }
+    }
+    oracle_typed(merged)
+}
+/// client::Grpc::unary / client_streaming against a scripted response: headers, one message (or
+/// none when `error`), trailers with custom keys
+fn case_client_trailers(out: &mut Out, r: &mut Rng, error: bool, client_streaming: bool, with_trailers: bool, corpus: Option<(HeaderMap, HeaderMap)>) {
+    let (mut hdrs, mut raw_h) = (HeaderMap::new(), RawBin::new());
+    let (mut t, mut raw_t) = (HeaderMap::new(), RawBin::new());
+    hdrs.insert("content-type", HeaderValue::from_static("application/grpc"));
+    match &corpus {
+        Some((h, tr)) => {
+            hdrs = h.clone();
+            t = tr.clone();
+        }
+        None => {
+            gen_peer_entries(r, &mut hdrs, &mut raw_h, 4);
+            gen_peer_entries(r, &mut t, &mut raw_t, 5);
+            // sometimes a name of the headers is used by the trailers as well
+            if r.chance(1, 3) {
+                if let Some(k) = hdrs.keys().find(|k| k.as_str() != "content-type" && !k.as_str().ends_with("-bin")).cloned() {
+                    t.append(k, HeaderValue::from_static("from-trailers"));
+                }
+            }
+        }
+    }
+    let code = if error { r.range(1, 16) as u32 } else { 0 };
+    t.insert("grpc-status", HeaderValue::from_str(&code.to_string()).unwrap());
+    if error && r.chance(1, 2) {
+        t.insert("grpc-message", HeaderValue::from_static("went%20wrong"));
+    }
+    let trailers = if with_trailers || error { Some(t.clone()) } else { None };
+    let mut evs = vec![];
+    if !error {
+        evs.push(Ev::Data(frame(b"resp")));
+    }
+    if let Some(t) = &trailers {
+        evs.push(Ev::Trailers(t.clone()));
+    }
+    let svc = Scripted { headers: hdrs.clone(), evs };
+    let res = catch(std::panic::AssertUnwindSafe(|| {
+        let mut grpc = tonic::client::Grpc::new(svc);
+        let path = http::uri::PathAndQuery::from_static("/pkg.Svc/Method");
+        spin(
+            async {
+                let r = if client_streaming {
+                    grpc.client_streaming(Request::new(tokio_stream::iter(vec![b"a".to_vec(), b"b".to_vec()])), path, RawCodec).await
+                } else {
+                    grpc.unary(Request::new(b"req".to_vec()), path, RawCodec).await
+                };
+                match r {
+                    Ok(resp) => Ok(resp.metadata().clone().into_headers()),
+                    Err(st) => Err(st),
+                }
+            },
+            10000,
+        )
+        .expect("client hangs")
+    }));
+    let mut probes = vec![];
+    let (obs, oracle) = match res {
+        Err(p) => (Tr::L(vec![Tr::n(99u8)]), Some(format!("panic: {}", p))),
+        Ok(Ok(m)) => {
+            probes = gen_probes(r, &m, 2);
+            let why = if error {
+                Some("an error status in the trailers gave a successful response".to_string())
+            } else {
+                match &trailers {
+                    Some(t) => oracle_merged(&m, &hdrs, t, &[], &raw_t, &raw_h),
+                    None => oracle_merged(&m, &hdrs, &HeaderMap::new(), &[], &raw_t, &raw_h),
+                }
+            };
+            (if error { Tr::L(vec![Tr::n(97u8)]) } else { read_tr(&m, &probes) }, why)
+        }
+        Ok(Err(st)) => {
+            let m = st.metadata().clone().into_headers();
+            probes = gen_probes(r, &m, 2);
+            let why = if !error {
+                Some(format!("a successful scripted call failed: {:?} {}", st.code(), st.message()))
+            } else if st.code() as i32 as u32 != code {
+                Some(format!("code {} received as {:?}", code, st.code()))
+            } else {
+                // the response headers are folded into the status metadata: their names win
+                oracle_merged(&m, &t, &hdrs, &["grpc-status", "grpc-message", "grpc-status-details-bin"], &raw_h, &raw_t)
+            };
+            (if error { Tr::opt(Some(read_tr(&m, &probes))) } else { Tr::L(vec![Tr::n(96u8)]) }, why)
+        }
+    };
+    out.hist("merge.client.trailers_repeated_key", t.keys().any(|k| t.get_all(k).iter().count() > 1));
+    out.hist("merge.client.key_in_headers_and_trailers", t.keys().any(|k| hdrs.contains_key(k)));
+    out.hist("merge.client.call", if client_streaming { "client_streaming" } else { "unary" });
+    for vs in raw_t.values() {
+        for v in vs {
+            out.hist("merge.trailer_binary.len_mod3", v.len() % 3);
+        }
+    }
+    let kind = if error { "merge.client_error_fold" } else { "merge.client_response" };
+    let model = if error {
+        format!("obs_client_unary_error_metadata {} {} {}", coq_hm(&hdrs), coq_hm(&t), coq_probes(&probes))
+    } else {
+        format!("obs_client_unary_metadata {} {} {}", coq_hm(&hdrs), coq_opt(&trailers, |t| coq_hm(t)), coq_probes(&probes))
+    };
+    out.push(Case {
+        kind: if corpus.is_some() { format!("corpus.{}", kind) } else { kind.to_string() },
+        input: json!({"headers": hm_json(&hdrs), "trailers": trailers.as_ref().map(hm_json), "error": error, "client_streaming": client_streaming, "probes": probes}),
+        model,
+        impl_obs: obs,
+        oracle,
+        nontrivial: t.len() > 1,
+    });
+}
+/// a peer's unary request whose body ends with trailers, into server::Grpc::unary /
+/// server_streaming: what Request::metadata() the handler sees
+fn case_server_request_trailers(out: &mut Out, r: &mut Rng, streaming: bool, corpus: Option<(HeaderMap, HeaderMap)>) {
+    let (mut hdrs, mut raw_h) = gen_peer_request(r);
+    let (mut t, mut raw_t) = (HeaderMap::new(), RawBin::new());
+    let with_trailers;
+    match &corpus {
+        Some((h, tr)) => {
+            hdrs = h.clone();
+            raw_h = RawBin::new();
+            t = tr.clone();
+            with_trailers = true;
+        }
+        None => {
+            gen_peer_entries(r, &mut t, &mut raw_t, 5);
+            if r.chance(1, 3) {
+                if let Some(k) = hdrs.keys().find(|k| !["content-type", "te", "grpc-accept-encoding"].contains(&k.as_str()) && !k.as_str().ends_with("-bin")).cloned() {
+                    t.append(k, HeaderValue::from_static("from-trailers"));
+                }
+            }
+            with_trailers = r.chance(5, 6);
+        }
+    }
+    let trailers = if with_trailers { Some(t.clone()) } else { None };
+    let res = run_server(hdrs.clone(), Ok((MetadataMap::new(), vec![Ok(b"resp".to_vec())])), streaming, false, trailers.clone());
+    let mut probes = vec![];
+    let (obs, oracle) = match res {
+        Err(p) => (Tr::L(vec![Tr::n(99u8)]), Some(format!("panic: {}", p))),
+        Ok(o) => match o.seen {
+            None => (Tr::L(vec![Tr::n(98u8)]), Some("handler not called".to_string())),
+            Some(m) => {
+                let m = m.into_headers();
+                probes = gen_probes(r, &m, 2);
+                let why = oracle_merged(&m, &hdrs, trailers.as_ref().unwrap_or(&HeaderMap::new()), &[], &raw_t, &raw_h);
+                (read_tr(&m, &probes), why)
+            }
+        },
+    };
+    out.hist("merge.server.trailers_repeated_key", t.keys().any(|k| t.get_all(k).iter().count() > 1));
+    out.push(Case {
+        kind: if corpus.is_some() { "corpus.merge.server_request".into() } else { "merge.server_request".into() },
+        input: json!({"headers": hm_json(&hdrs), "trailers": trailers.as_ref().map(hm_json), "streaming": streaming, "probes": probes}),
+        model: format!("obs_server_unary_request_metadata {} {} {}", coq_hm(&hdrs), coq_opt(&trailers, |t| coq_hm(t)), coq_probes(&probes)),
+        impl_obs: obs,
+        oracle,
+        nontrivial: !t.is_empty(),
     });
 }
 
@@ -1798,6 +2040,33 @@ fn main() {
             case_server(&mut out, &mut r, &forged, reply, streaming, compress, (13, "".into(), vec![1, 2, 3, 4]), true);
         }
     }
+    // trailers of a successful unary response with repeated custom keys (merge)
+    {
+        let mut h = HeaderMap::new();
+        h.insert("content-type", HeaderValue::from_static("application/grpc"));
+        h.append("x-a", HeaderValue::from_static("h1"));
+        h.append("x-a", HeaderValue::from_static("h2"));
+        h.append("x-head", HeaderValue::from_static("only-in-headers"));
+        let mut t = HeaderMap::new();
+        for v in ["one", "two", "three"] {
+            t.append("x-trail", HeaderValue::from_static(v));
+        }
+        t.append("x-trail-bin", HeaderValue::from_static("AP8H"));
+        t.append("x-trail-bin", HeaderValue::from_static("QQ=="));
+        t.append("x-trail-bin", HeaderValue::from_static("QUI"));
+        t.append("x-a", HeaderValue::from_static("t1"));
+        for cs in [false, true] {
+            case_client_trailers(&mut out, &mut r, false, cs, true, Some((h.clone(), t.clone())));
+            case_client_trailers(&mut out, &mut r, true, cs, true, Some((h.clone(), t.clone())));
+        }
+        let mut rh = HeaderMap::new();
+        rh.insert("te", HeaderValue::from_static("trailers"));
+        rh.insert("content-type", HeaderValue::from_static("application/grpc"));
+        rh.append("x-a", HeaderValue::from_static("h1"));
+        for st in [false, true] {
+            case_server_request_trailers(&mut out, &mut r, st, Some((rh.clone(), t.clone())));
+        }
+    }
     // error status with repeated ASCII and binary keys, as the client sees it
     let rep = vec![op(1, "x-a", b"1"), op(1, "x-a", b"2"), op(1, "x-a", b"3"), op(3, "x-p-bin", b"\x00"), op(3, "x-p-bin", b"\x01\x02"), op(1, "x-b", b"only"), op(1, "te", b"forged")];
     for (after, streaming) in [(false, false), (false, true), (true, true)] {
@@ -1845,6 +2114,12 @@ fn main() {
             base.append(*k, HeaderValue::from_static("base"));
         }
         case_add_header(&mut out, &mut r, &ops, st, base, false);
+    }
+    for i in 0..n / 2 {
+        case_client_trailers(&mut out, &mut r, i % 4 == 3, i % 2 == 0, i % 7 != 0, None);
+    }
+    for i in 0..n / 3 {
+        case_server_request_trailers(&mut out, &mut r, i % 2 == 0, None);
     }
     for _ in 0..n / 2 {
         let ops = gen_ops(&mut r, false);
@@ -1902,7 +2177,7 @@ fn main() {
 
     out.finish(
         IMPORTS,
-        "client / server.response / server.trailers / server.trailers_only / add_header: random MetadataMaps built through the public API (keys +-bin in any case, visible-ASCII, space/tab and obs-text values, binary values of every length mod 3, repeated keys, the six reserved names and grpc-encoding / grpc-status-details-bin anywhere) sent through the real client::Grpc (capturing transport), server::Grpc unary / server-streaming handlers (Response metadata, error status in trailers, trailers-only) and Status::add_header, with and without compression configured; the peer's request reaches the handler with padded and unpadded binary values; non-trivial = non-empty metadata. status_received: the headers written by Status::add_header read back with Status::from_header_map, the received status.metadata() read with the typed accessors. client_error.trailers_only / client_error.trailers: a real server::Grpc handler (unary and server-streaming) failing with a status that carries repeated ASCII and binary keys, called by a real client::Grpc over an in-memory transport; the Err(status).metadata() the caller gets. accessor: maps built by insert/append/remove(+_bin) and read with string keys of any case (&str, String and &String). Every received map is also read through iter, iter_mut, keys, values, values_mut, get_mut, get_bin_mut and entry / entry_bin. entry: the Entry API (or_insert, VacantEntry insert / insert_entry / into_key, OccupiedEntry get / iter / insert / insert_mult / append / remove / remove_entry_mult / get_mut / iter_mut) with keys of any case and of the wrong kind, the static encoding of every key / value / handle it hands out is observed. mutate: writes through get_mut / get_bin_mut / values_mut / iter_mut. bin_value / bin_text: byte strings and arbitrary base64 texts. key / ascii_value: validation. Distinct = distinct (kind, model expression).",
+        "client / server.response / server.trailers / server.trailers_only / add_header: random MetadataMaps built through the public API (keys +-bin in any case, visible-ASCII, space/tab and obs-text values, binary values of every length mod 3, repeated keys, the six reserved names and grpc-encoding / grpc-status-details-bin anywhere) sent through the real client::Grpc (capturing transport), server::Grpc unary / server-streaming handlers (Response metadata, error status in trailers, trailers-only) and Status::add_header, with and without compression configured; the peer's request reaches the handler with padded and unpadded binary values; non-trivial = non-empty metadata. status_received: the headers written by Status::add_header read back with Status::from_header_map, the received status.metadata() read with the typed accessors. client_error.trailers_only / client_error.trailers: a real server::Grpc handler (unary and server-streaming) failing with a status that carries repeated ASCII and binary keys, called by a real client::Grpc over an in-memory transport; the Err(status).metadata() the caller gets. merge.client_response / merge.client_error_fold / merge.server_request: MetadataMap::merge at its three call sites - client::Grpc::unary and client_streaming against a scripted response (headers, one message, trailers with repeated custom keys, padded and unpadded binary values, names shared with the headers), an error status in the trailers of a unary call (headers folded into the status metadata), and a scripted request with trailers into server::Grpc::unary / server_streaming. accessor: maps built by insert/append/remove(+_bin) and read with string keys of any case (&str, String and &String). Every received map is also read through iter, iter_mut, keys, values, values_mut, get_mut, get_bin_mut and entry / entry_bin. entry: the Entry API (or_insert, VacantEntry insert / insert_entry / into_key, OccupiedEntry get / iter / insert / insert_mult / append / remove / remove_entry_mult / get_mut / iter_mut) with keys of any case and of the wrong kind, the static encoding of every key / value / handle it hands out is observed. mutate: writes through get_mut / get_bin_mut / values_mut / iter_mut. bin_value / bin_text: byte strings and arbitrary base64 texts. key / ascii_value: validation. Distinct = distinct (kind, model expression).",
         json!({}),
     );
 }
